@@ -523,7 +523,23 @@ func c19CheckExemption(c *Ctx, p *Prog, la *lockAnalysis, ex exemption, accs []a
 			}
 			fn := fname(a.In.Parent())
 			o.Site(a.In.Pos(), "W in %s", fn)
-			if !c19SetupAPI[fn] {
+			// a private helper called only (statically) from the topology-building API belongs to it
+			var viaAPI func(f *ssa.Function, d int) bool
+			viaAPI = func(f *ssa.Function, d int) bool {
+				if c19SetupAPI[fname(f)] {
+					return true
+				}
+				if d > 3 || !isPrivateHelper(f) || len(cg.In[f]) == 0 {
+					return false
+				}
+				for _, e := range cg.In[f] {
+					if e.Kind != "static" || !viaAPI(e.From, d+1) {
+						return false
+					}
+				}
+				return true
+			}
+			if !viaAPI(a.In.Parent(), 0) {
 				o.Fail(a.In.Pos(), "%s.%s is exempt as set-up-phase state but is written in %s, which is not part of the topology-building API", ex.T, ex.F, fn)
 			}
 		}
